@@ -20,6 +20,12 @@ def bar_scenarios(rng, n):
                 op.pop('iterable_len', None)
                 op.setdefault('chunk_size', rng.choice([1, 2, 3]))
                 op.pop('n_splits', None)
+                if rng.random() < .6:
+                    # a slow producer: the length becomes known long after the last element was handed out (and possibly after
+                    # every task is done and displayed)
+                    op['gen_tail'] = rng.choice([0.15, 0.3, 0.6])
+                    op['gen_pause'] = rng.choice([0.0, 0.02, 0.15])
+                    op['dur'] = {'kind': 'hash', 'salt': rng.randint(0, 99), 'unit': rng.choice([0.0, 0.01, 0.05])}
         scs.append(sc)
     return scs
 
